@@ -25,18 +25,19 @@ func init() {
 }
 
 type fault struct {
-	Kind  string `json:"kind"`                         // none cut write-error callback input-error exception exception+write-error unknown-code unexpected-packet cancel deadline
-	K     int    `json:"k"`                            // byte offset / callback index / packet position
-	Gate  string `json:"gate"`                         // gate at which an exception is injected or the context is cancelled
-	Occ   int    `json:"occ"`                          // occurrence of that gate (1-based)
-	Block bool   `json:"peer_stops_reading,omitempty"` // from the moment of cancellation on the peer accepts no more bytes (writes block)
-	WFail bool   `json:"cancel_write_fails,omitempty"` // from the moment of cancellation on, every write on the connection fails
-	Far   bool   `json:"far_deadline,omitempty"`       // the caller's context also carries a deadline far beyond the read timeout
-	Sched string `json:"sched"`                        // "" | recv-first (sender resumes after the receiver has handled the injected packet) | watch-first (the cancel-watch checks before the failing receiver has returned)
+	Kind     string `json:"kind"`                               // none cut write-error callback input-error exception exception+write-error unknown-code unexpected-packet cancel deadline
+	K        int    `json:"k"`                                  // byte offset / callback index / packet position
+	Gate     string `json:"gate"`                               // gate at which an exception is injected or the context is cancelled
+	Occ      int    `json:"occ"`                                // occurrence of that gate (1-based)
+	Block    bool   `json:"peer_stops_reading,omitempty"`       // from the moment of cancellation on the peer accepts no more bytes (writes block)
+	WFail    bool   `json:"cancel_write_fails,omitempty"`       // from the moment of cancellation on, every write on the connection fails
+	Far      bool   `json:"far_deadline,omitempty"`             // the caller's context also carries a deadline far beyond the read timeout
+	CloseErr bool   `json:"conn_close_reports_error,omitempty"` // net.Conn.Close tears the connection down but returns an error (e.g. TLS close_notify on a dead peer)
+	Sched    string `json:"sched"`                              // "" | recv-first (sender resumes after the receiver has handled the injected packet) | watch-first (the cancel-watch checks before the failing receiver has returned)
 }
 
 func (f fault) String() string {
-	return fmt.Sprintf("%s k=%d gate=%s#%d sched=%s far=%v wfail=%v block=%v", f.Kind, f.K, f.Gate, f.Occ, f.Sched, f.Far, f.WFail, f.Block)
+	return fmt.Sprintf("%s k=%d gate=%s#%d sched=%s far=%v wfail=%v block=%v closeerr=%v", f.Kind, f.K, f.Gate, f.Occ, f.Sched, f.Far, f.WFail, f.Block, f.CloseErr)
 }
 
 type scenSpec struct {
@@ -86,6 +87,11 @@ func runScenario(sp scenSpec, f fault, rt time.Duration) (*scenOutcome, error) {
 	conn := sc.conn
 	enc := sc.enc
 	r := NewRng(sp.Seed)
+	if f.CloseErr {
+		conn.mu.Lock()
+		conn.closeErr = fmt.Errorf("sim: close_notify: broken pipe")
+		conn.mu.Unlock()
+	}
 
 	// ---------------- the query and the server's reactions
 	var q ch.Query
@@ -827,6 +833,13 @@ func c04Faults(r *Rng, sp scenSpec, base *scenOutcome, thorough bool) []fault {
 			fs = append(fs, fault{Kind: "input-error", K: j})
 		}
 	}
+	// the same cuts and write errors on a connection whose Close reports an error: the client is closed all the same
+	for _, k := range pick(base.srvLen+1, 3) {
+		fs = append(fs, fault{Kind: "cut", K: k, CloseErr: true})
+	}
+	for _, k := range pick(len(base.written), 4) {
+		fs = append(fs, fault{Kind: "write-error", K: k, CloseErr: true})
+	}
 	return fs
 }
 
@@ -1021,7 +1034,83 @@ func runC10(c *Ctx) {
 			}
 		}
 	}
+	c10ChattyServer(c)
 	c10Handshake(c)
+}
+
+// a server that never goes quiet: Progress packets keep arriving with gaps far below the read timeout, so no read ever times
+// out; the caller cancels (no deadline) from inside a callback and from outside.  The call must still end promptly.
+func c10ChattyServer(c *Ctx) {
+	R := c.R
+	for _, from := range []string{"callback", "outside"} {
+		for _, comp := range []ch.Compression{ch.CompressionDisabled, ch.CompressionLZ4} {
+			rt := 300 * time.Millisecond
+			sc, err := connectSim(simOpts{readTimeout: rt, compression: comp})
+			if err != nil {
+				R.Note("chatty server: %v", err)
+				return
+			}
+			stop := make(chan struct{})
+			var fed sync.WaitGroup
+			fed.Add(1)
+			go func() {
+				defer fed.Done()
+				for i := uint64(1); ; i++ {
+					select {
+					case <-stop:
+						return
+					case <-time.After(2 * time.Millisecond):
+						sc.conn.feed(sc.enc.progress(i, i*10, 1000, 0, 0, i))
+					}
+				}
+			}()
+			ctx, cancel := context.WithCancel(context.Background())
+			n := 0
+			var cancelledAt time.Time
+			q := ch.Query{Body: "SELECT sleep(3)", OnProgress: func(ctx context.Context, p proto.Progress) error {
+				n++
+				if from == "callback" && n == 5 {
+					cancelledAt = time.Now()
+					cancel()
+				}
+				return nil
+			}}
+			if from == "outside" {
+				time.AfterFunc(25*time.Millisecond, func() { cancelledAt = time.Now(); cancel() })
+			}
+			done := make(chan error, 1)
+			go func() { done <- sc.client.Do(ctx, q) }()
+			bound := rt + 1500*time.Millisecond
+			var derr error
+			hung := false
+			select {
+			case derr = <-done:
+			case <-time.After(bound + time.Second):
+				hung = true
+			}
+			took := time.Since(cancelledAt)
+			close(stop)
+			fed.Wait()
+			_, closed, closeCalls, _ := sc.conn.snapshot()
+			cs := map[string]any{"scenario": "chatty-server", "cancel_from": from, "compression": int(comp), "read_timeout_ms": rt.Milliseconds(), "progress_seen": n, "error": fmt.Sprint(derr), "returned_after_ms": took.Milliseconds()}
+			R.Case(fmt.Sprintf("chatty|%s|%d", from, comp), true)
+			R.Count("shape:chatty-server-cancel")
+			cancel()
+			switch {
+			case hung:
+				R.Violate(Violation{Kind: "oracle", Key: "cancelled-do-does-not-return", What: fmt.Sprintf("the server keeps sending Progress every 2 ms (read timeout %v): Do did not return within %v of the cancellation", rt, bound), Case: cs})
+				sc.conn.Close()
+				<-done
+			case !errors.Is(derr, context.Canceled):
+				R.Violate(Violation{Kind: "oracle", Key: "cancel-error-mismatch", What: fmt.Sprintf("Do returned %v, which does not match context.Canceled", derr), Case: cs})
+			case took > rt+600*time.Millisecond:
+				R.Violate(Violation{Kind: "oracle", Key: "cancel-not-prompt", What: fmt.Sprintf("Do returned %v after the cancellation; limit read timeout %v + grace", took, rt), Case: cs})
+			case !closed || closeCalls < 1:
+				R.Violate(Violation{Kind: "oracle", Key: "cancel-leaves-connection-open", What: fmt.Sprintf("after cancellation closed=%v, Conn.Close calls=%d", closed, closeCalls), Case: cs})
+			}
+			sc.client.Close()
+		}
+	}
 }
 
 // cancellation during the handshake
